@@ -50,6 +50,9 @@ class Ctx:
         self.reach = {}
         self.t0 = time.time()
         self.deadline = None
+        self.debug_toggle = False
+        self._debug_phase = 0
+        self._set_debug = lambda flag: None
 
     @property
     def thorough(self):
@@ -64,6 +67,12 @@ class Ctx:
 
     def ev(self, n=1):
         self.evaluations += n
+        # modules that opt in (DEBUG_TOGGLE = True) run under both values of the library debug flag: the flag is flipped
+        # every 97 monitored executions (the properties must hold with the flag on or off)
+        if self.debug_toggle and (self.evaluations // 97) % 2 != self._debug_phase:
+            self._debug_phase = (self.evaluations // 97) % 2
+            self._set_debug(self._debug_phase == 0)
+            self.hits['debug_flag.off' if self._debug_phase else 'debug_flag.on'] += 1
 
     def hit(self, name, n=1):
         self.hits[name] += n
@@ -98,15 +107,21 @@ class Ctx:
             v['monitor'] == monitor and v['key'] == key and v['message'] == message
             for v in self.violations
         ):
-            self.violations.append(
-                {
-                    'monitor': monitor,
-                    'key': key,
-                    'message': message,
-                    'kind': kind,
-                    'payload': payload,
-                }
-            )
+            record = {
+                'monitor': monitor,
+                'key': key,
+                'message': message,
+                'kind': kind,
+                'payload': payload,
+            }
+            if self.debug_toggle:
+                try:
+                    from gym_gridverse.debugging import gv_debug
+                    record['debug_flag'] = bool(gv_debug())
+                    record['message'] = message + f' [library debug flag {"on" if record["debug_flag"] else "off"}]'
+                except Exception:
+                    pass
+            self.violations.append(record)
 
     def inconc(self, reason):
         if len(self.inconclusive) < 20:
@@ -152,6 +167,10 @@ def shard_main(prop, tier, seed, shard, nshards, out, budget_s):
         mod = load_prop(prop)
         ctx = Ctx(prop, tier, seed, shard, nshards)
         ctx.deadline = ctx.t0 + budget_s
+        if getattr(mod, 'DEBUG_TOGGLE', False):
+            from gym_gridverse.debugging import reset_gv_debug
+            ctx.debug_toggle = True
+            ctx._set_debug = reset_gv_debug
         mod.run(ctx)
         res = ctx.result()
     except BaseException:  # harness error: inconclusive, never a violation
@@ -402,6 +421,9 @@ def run_replay(prop, path):
     mod = load_prop(prop)
     data = json.load(open(path))
     ctx = Ctx(prop, 'quick', 0, 0, 1)
+    if 'debug_flag' in data:  # replay under the value of the library debug flag at the time of the violation
+        from gym_gridverse.debugging import reset_gv_debug
+        reset_gv_debug(data['debug_flag'])
     mod.replay(ctx, data['kind'], data['payload'])
     hits = [v for v in ctx.violations if v['monitor'] == data.get('monitor')] or ctx.violations
     if hits:
